@@ -42,10 +42,17 @@ REDUCED = ["u8", "u16", "i32", "u64", "i24", "u48", "f32", "char", "wchar", "e8"
            "z_char", "inner", "anon_s", "b16_full", "b8_part", "b32_sw8", "b16_sw8_2"]
 
 
+DYNAMIC_UNIONS = [["d_char", "u16"], ["d_u16", "u32"], ["u8", "d_char"], ["u32", "z_char"]]
+
+
+def dynamic_unions():
+    return [Program(m, e, a, union=True) for m in DYNAMIC_UNIONS for e in ("<", ">") for a in (False, True)]
+
+
 def reduced_programs(seed=0, sample=24):
     """Smaller quick set for the multi-run pipelines: every kind alone (both byte orders, both modes), ordered pairs of
     the reduced alphabet in both modes with the byte order alternating, a few seeded longer sequences."""
-    ps = singles()
+    ps = singles() + dynamic_unions()
     i = 0
     for a_ in REDUCED:
         for b_ in REDUCED:
@@ -62,7 +69,7 @@ def reduced_programs(seed=0, sample=24):
 
 
 def quick_programs(seed=0, sample=40):
-    ps = singles() + pairs(QUICK, skip_heavy_aligned=True)
+    ps = singles() + dynamic_unions() + pairs(QUICK, skip_heavy_aligned=True)
     light = [k for k in KINDS if k not in HEAVY and k not in REJECTED and k not in EOF_KINDS]
     ps += sample_programs(light, sample, 3, 4, seed)
     return dedupe(ps)
@@ -70,7 +77,7 @@ def quick_programs(seed=0, sample=40):
 
 def thorough_programs(seed=0, sample=400):
     alpha = [k for k in KINDS if k not in REJECTED]
-    ps = singles() + pairs(alpha)
+    ps = singles() + dynamic_unions() + pairs(alpha)
     light = [k for k in KINDS if k not in HEAVY and k not in REJECTED and k not in EOF_KINDS]
     ps += sample_programs(light, sample, 3, 6, seed)
     return dedupe(ps)
